@@ -444,6 +444,7 @@ class Sim:
         watchdog_s: float = 900.0,
         shuffle_listing: bool = True,
         same_pid: bool = False,
+        epoch: float = 1_700_000_000.0,
     ) -> None:
         self.sandbox = sandbox
         self.seed_text = seed_text
@@ -484,7 +485,8 @@ class Sim:
         self.harness_error: Optional[str] = None
         self.fd_table: Dict[int, Tuple[str, str, str, Actor]] = {}
         self.lock_table: Dict[Tuple[int, int], Dict[str, Any]] = {}
-        self.vclock = 1_700_000_000.0
+        self.vclock = float(epoch)
+        self.epoch = float(epoch)
         self.interleave_sig: List[str] = []
         self.probe: Dict[str, int] = {}
         self.priorities: Dict[str, float] = {}
@@ -1123,7 +1125,7 @@ def _p_monotonic() -> float:
     if sim is None or actor is None:
         return _REAL["time.monotonic"]()
     sim.vclock += 0.001
-    return sim.vclock - 1_699_999_000.0
+    return sim.vclock - sim.epoch + 1000.0
 
 
 def _p_sleep(seconds: float) -> None:
@@ -1138,6 +1140,68 @@ def _p_sleep(seconds: float) -> None:
         sim.kill(actor)
         raise SimCrash()
     sim.yield_point(actor)
+
+
+def _clock_active() -> bool:
+    return _ACTIVE is not None and getattr(_tls, "actor", None) is not None
+
+
+def _wrap_time_struct(name: str) -> Any:
+    real = getattr(time, name)
+
+    def patched(*args: Any) -> Any:
+        if _clock_active() and (not args or args[0] is None):
+            return real(_p_time())
+        return real(*args)
+
+    patched.__name__ = name
+    return patched
+
+
+def _p_strftime(fmt: str, *args: Any) -> str:
+    if _clock_active() and not args:
+        return _REAL["time.strftime"](fmt, _REAL["time.localtime"](_p_time()))
+    return _REAL["time.strftime"](fmt, *args)
+
+
+def _p_time_ns() -> int:
+    if _clock_active():
+        return int(_p_time() * 1e9)
+    return _REAL["time.time_ns"]()
+
+
+import datetime as _datetime  # noqa: E402
+
+_REAL_DATETIME = _datetime.datetime
+_REAL_DATE = _datetime.date
+
+
+class _SimDateTime(_REAL_DATETIME):
+    """datetime.datetime whose now/utcnow/today read the simulated clock inside an actor."""
+
+    @classmethod
+    def now(cls, tz: Any = None) -> Any:  # type: ignore[override]
+        if _clock_active():
+            return _REAL_DATETIME.fromtimestamp(_p_time(), tz)
+        return _REAL_DATETIME.now(tz)
+
+    @classmethod
+    def utcnow(cls) -> Any:  # type: ignore[override]
+        if _clock_active():
+            return _REAL_DATETIME.fromtimestamp(_p_time(), _datetime.timezone.utc).replace(tzinfo=None)
+        return _REAL_DATETIME.utcnow()
+
+    @classmethod
+    def today(cls) -> Any:  # type: ignore[override]
+        return cls.now()
+
+
+class _SimDate(_REAL_DATE):
+    @classmethod
+    def today(cls) -> Any:  # type: ignore[override]
+        if _clock_active():
+            return _REAL_DATE.fromtimestamp(_p_time())
+        return _REAL_DATE.today()
 
 
 def _p_flock(fd: Any, operation: int) -> None:
@@ -1254,6 +1318,15 @@ def install_seams() -> None:
     time.time = _p_time  # type: ignore[assignment]
     time.monotonic = _p_monotonic  # type: ignore[assignment]
     time.sleep = _p_sleep  # type: ignore[assignment]
+    for name in ("localtime", "gmtime", "ctime"):
+        _REAL["time." + name] = getattr(time, name)
+        setattr(time, name, _wrap_time_struct(name))
+    _REAL["time.strftime"] = time.strftime
+    time.strftime = _p_strftime  # type: ignore[assignment]
+    _REAL["time.time_ns"] = time.time_ns
+    time.time_ns = _p_time_ns  # type: ignore[assignment]
+    _datetime.datetime = _SimDateTime  # type: ignore[misc]
+    _datetime.date = _SimDate  # type: ignore[misc]
     if _fcntl is not None:
         _fcntl.flock = _p_flock  # type: ignore[assignment]
         _fcntl.lockf = _p_lockf  # type: ignore[assignment]
